@@ -123,11 +123,11 @@ ReadCounts ==
                           /\ uf'.gc >= 0
                           /\ (act'.arg >= 0 => uf'.gc <= act'.arg)
                           /\ Len(ret') = uf'.gc ]_vars
-(* iostream-like flags: eof|fail exactly when the request crosses the declared end; a good,
+(* iostream-like flags: eof|fail when the request crosses the declared end, and from then on; a good,
    un-aborted read inside held data is complete *)
 Flags ==
   [][ act'.op = "read" =>
-        /\ (uf'.rd = "eof") <=> (act'.arg + uf.g > uf.end)
+        /\ (uf'.rd = "eof") <=> (act'.arg + uf.g > uf.end \/ uf.rd = "eof")
         /\ (uf'.rd = "good" /\ ~uf.abort /\ uf.data # <<>> /\ uf.g >= uf.data[1].pos)
               => uf'.gc = act'.arg ]_vars
 (* only read and seek move the get position; only writes move the put position forward *)
